@@ -271,6 +271,24 @@ def qstrcpy (dst : Bytes) (size : Nat) (src : Bytes) : Except Fault Bytes :=
     let n ← nulPos src 0
     qstrncpy dst size src n
 
+/-- `qstrncpy(buf + d, size, buf + s, nbytes)` with destination and source inside ONE block
+    (the documentation allows overlap). Order of operations as in the C code: clamp `nbytes`,
+    `memmove` (all `n` source bytes are read before the first one is stored), then the
+    terminator store `dst[n] = '\0'`. -/
+def qstrncpyOv (buf : Bytes) (d s size nbytes : Nat) : Except Fault Bytes :=
+  if size = 0 then pure buf
+  else do
+    let n := if size ≤ nbytes then size - 1 else nbytes
+    let buf ← memmove buf d s n           -- memmove(dst, src, nbytes)
+    wr buf (d + n) 0                      -- dst[nbytes] = '\0'
+
+/-- `qstrcpy(buf + d, size, buf + s)`: `strlen(src)` is taken first, on the unmodified block -/
+def qstrcpyOv (buf : Bytes) (d s size : Nat) : Except Fault Bytes :=
+  if size = 0 then pure buf
+  else do
+    let e ← nulPos buf s                  -- strlen(src) = e - s
+    qstrncpyOv buf d s size (e - s)
+
 /-- `strstr(hay + i, needle)` by the definition of the C standard (first offset `≥ i` at which
     all bytes of `needle` match); `needle` is a block holding a C string of length `nl` -/
 def strstrFrom (hay : Bytes) (needle : Bytes) (nl : Nat) : (fuel : Nat) → (i : Nat) →
